@@ -412,6 +412,37 @@ pub fn gen_c11(o: &mut Out, tier: &str, seed: u64) {
                 o.op("ct.mul", &format!("elg op ct mul {} {}", a, hs(&s)));
             }
         }
+        // operands related to each other: same commitment / same handle / one the negation of the other /
+        // same amount and opening under two keys (the shape of grouped ciphertexts)
+        {
+            let k2 = kp(&mut r);
+            let (x, rr, r2) = (Scalar::from(amount(&mut r)), rand_scalar(&mut r), rand_scalar(&mut r));
+            let (c, c2) = (commit(&x, &rr), commit(&x, &r2));
+            let (d, d2) = (rr * k.p, rr * k2.p);
+            let ct = |c: &RistrettoPoint, d: &RistrettoPoint| format!("{}{}", hp(c), hp(d));
+            let pairs = [
+                (ct(&c, &d), ct(&c, &d2)), (ct(&c, &d), ct(&c2, &d)), (ct(&c, &d), ct(&c, &d)),
+                (ct(&c, &d), ct(&-c, &-d)), (ct(&c, &d), ct(&-c, &d2)), (ct(&c, &d), ct(&c2, &-d)),
+                (ct(&c, &RistrettoPoint::identity()), ct(&c, &d)), (ct(&RistrettoPoint::identity(), &d), ct(&c, &d)),
+                (ct(&c, &d), ct(&d, &c)),
+            ];
+            for (a, b) in pairs.iter() {
+                for (a, b) in [(a, b), (b, a)] {
+                    o.op("ct.add.related", &format!("elg op ct add {} {}", a, b));
+                    o.op("ct.sub.related", &format!("elg op ct sub {} {}", a, b));
+                }
+            }
+            for ty in ["cmt", "hdl"] {
+                for (a, b) in [(c, c), (c, -c), (d, d2), (c, d)] {
+                    o.op(&format!("{}.add.related", ty), &format!("elg op {} add {} {}", ty, hp(&a), hp(&b)));
+                    o.op(&format!("{}.sub.related", ty), &format!("elg op {} sub {} {}", ty, hp(&a), hp(&b)));
+                }
+            }
+            for (a, b) in [(x, x), (x, -x), (rr, rr)] {
+                o.op("opn.add.related", &format!("elg op opn add {} {}", hs(&a), hs(&b)));
+                o.op("opn.sub.related", &format!("elg op opn sub {} {}", hs(&a), hs(&b)));
+            }
+        }
         // decrypting a combination yields the combination of the plaintexts: dec(a*ct1 + ct2 - ct3)
         let (x1, x2) = (rand_scalar(&mut r), rand_scalar(&mut r));
         let (r1, r2) = (rand_scalar(&mut r), rand_scalar(&mut r));
@@ -498,6 +529,23 @@ pub fn gen_c13(o: &mut Out, tier: &str, seed: u64) {
         o.op("text", &format!("tostr aect {}", hex(&v)));
         o.op("text", &format!("fromstr aect {}", hex(b64(&v).as_bytes())));
     }
+    // ciphertexts no encryption produces: constant patterns, a real ciphertext with its nonce / body / tag cleared
+    {
+        let kb = r.bytes(16);
+        let key = AeKey::try_from(kb.as_slice()).unwrap();
+        let ct = key.encrypt(7).to_bytes();
+        let mut specials: Vec<Vec<u8>> = vec![vec![0u8; 36], vec![0xffu8; 36], vec![1u8; 36]];
+        for (a, b) in [(0usize, 12usize), (12, 20), (20, 36), (12, 36), (0, 20)] {
+            let mut m = ct.to_vec();
+            for x in m[a..b].iter_mut() { *x = 0; }
+            specials.push(m);
+        }
+        for sp in specials.iter() {
+            for k in keys.iter().chain(std::iter::once(&kb)) {
+                o.op_exp("special-ciphertext", "none", &format!("ae dec {} {}", hex(k), hex(sp)));
+            }
+        }
+    }
     // every single-bit flip of sampled ciphertexts; other keys
     for _ in 0..(if th { 40 } else { 4 }) {
         let kb = r.bytes(16);
@@ -563,6 +611,14 @@ pub fn gen_c14(o: &mut Out, tier: &str, seed: u64) {
             o.op("phrase", &format!("kdf {} phrase {} {}", ty, hex(ph.as_bytes()), hex(pw.as_bytes())));
             o.op("phrase", &format!("kdf {} phrase {} {}", ty, hex(format!(" {} ", ph).as_bytes()), hex(pw.as_bytes())));
         } }
+        // the phrase is used byte for byte: line breaks, tabs, NUL and case are all significant
+        for ph in phrases { for (pre, suf) in [("", "\n"), ("", "\r\n"), ("", "\r"), ("", "\t"), ("\n", ""), ("", "\0"), ("\u{feff}", ""), ("", "\n\n")] {
+            for pw in ["", "TREZOR"] {
+                o.op("phrase.edge-bytes", &format!("kdf {} phrase {} {}", ty, hex(format!("{}{}{}", pre, ph, suf).as_bytes()), hex(pw.as_bytes())));
+            }
+        } }
+        o.op("phrase.case", &format!("kdf {} phrase {} {}", ty, hex("Legal Winner".as_bytes()), hex(b"")));
+        o.op("phrase.case", &format!("kdf {} phrase {} {}", ty, hex("legal winner".as_bytes()), hex(b"")));
     }
     // the two key types differ for the same signer and seed (domain separation): same signature -> both keys
     for _ in 0..4 {
@@ -588,7 +644,10 @@ pub fn gen_c18(o: &mut Out, tier: &str, seed: u64) {
         scalars.push(b);
     }
     for s in scalars.iter() {
-        for how in ["decoded", "from", "cloned", "keypair-clone"] { o.op_exp(&format!("drop.secret.{}", how), "wiped", &format!("drop secret {} {}", how, hex(s))); }
+        for how in ["decoded", "from", "cloned", "keypair-clone", "decoded-unwind", "cloned-unwind", "keypair-clone-unwind"] { o.op_exp(&format!("drop.secret.{}", how), "wiped", &format!("drop secret {} {}", how, hex(s))); }
+        o.op_exp("drop.keypair.new-unwind", "wiped", &format!("drop keypair new-unwind {}", hex(s)));
+        o.op_exp("drop.opening.new-unwind", "wiped", &format!("drop opening new-unwind {}", hex(s)));
+        o.op_exp("drop.opening.add-unwind", "wiped", &format!("drop opening add-unwind {}", hex(s)));
         for how in ["new", "cloned"] { o.op_exp(&format!("drop.keypair.{}", how), "wiped", &format!("drop keypair {} {}", how, hex(s))); }
         for how in ["decoded", "new", "cloned", "add", "sub", "mul"] { o.op_exp(&format!("drop.opening.{}", how), "wiped", &format!("drop opening {} {}", how, hex(s))); }
         o.op("debug.secret", &format!("debug secret {}", hex(s)));
@@ -609,7 +668,9 @@ pub fn gen_c18(o: &mut Out, tier: &str, seed: u64) {
         o.op_exp("drop.keypair.derived", "wiped", &format!("drop keypair derived {}", hex(&seedb)));
         o.op_exp("drop.aekey.derived", "wiped", &format!("drop aekey derived {}", hex(&seedb)));
         let k = r.bytes(16);
-        for how in ["decoded", "from", "cloned"] { o.op_exp(&format!("drop.aekey.{}", how), "wiped", &format!("drop aekey {} {}", how, hex(&k))); }
+        for how in ["decoded", "from", "cloned", "decoded-unwind", "cloned-unwind"] { o.op_exp(&format!("drop.aekey.{}", how), "wiped", &format!("drop aekey {} {}", how, hex(&k))); }
+        o.op_exp("drop.secret.derived-unwind", "wiped", &format!("drop secret derived-unwind {}", hex(&seedb)));
+        o.op_exp("drop.aekey.derived-unwind", "wiped", &format!("drop aekey derived-unwind {}", hex(&seedb)));
         o.op("debug.aekey", &format!("debug aekey {}", hex(&k)));
     }
     let mut k = vec![0u8; 16]; k[3] = 9;
